@@ -101,6 +101,10 @@ structure ImgHypC5b (img : Fs) (jc : List (Closed × List Record)) (oid : Nat) (
   head : ∃ st tl, jo = .state st :: tl
   johead : jc ≠ [] → ∃ tl, jo = .state stC :: tl
 
+theorem ImgHypC5b.allDurable {img : Fs} {jc : List (Closed × List Record)} {oid : Nat}
+    {jo : List Record} {stC : RState} {lC : Log} {g0 : File} (h : ImgHypC5b img jc oid jo stC lC g0) :
+    AllDurable img := fun g hg => (h.all g hg).2
+
 theorem ImgHypC5b.lt {img : Fs} {jc : List (Closed × List Record)} {oid : Nat} {jo : List Record}
     {stC : RState} {lC : Log} {g0 : File} (h : ImgHypC5b img jc oid jo stC lC g0) :
     ∀ p ∈ jc, p.1.id < oid := by
@@ -174,7 +178,8 @@ theorem dropHeadless_fs_evs_C5b (a : OpenAcc) (id : Nat) (tr : Option Nat) :
 theorem openStore_caseC_C5b (cfg : Cfg) {img : Fs} {jc : List (Closed × List Record)} {oid : Nat}
     {jo : List Record} {stC : RState} {lC : Log} {g0 : File}
     (h : ImgHypC5b img jc oid jo stC lC g0) {a1 : OpenAcc} {tr : Option Nat}
-    (hfs : a1.fs = img) (hevs : a1.evs = []) (hst : a1.sm.st = stC) (hlog : a1.sm.log = lC)
+    {pre : List Ev}
+    (hfs : a1.fs = img) (hevs : a1.evs = pre) (hst : a1.sm.st = stC) (hlog : a1.sm.log = lC)
     (hcl : a1.sm.closed = jc.map (·.1)) (hrem : a1.sm.removed = []) (hcfg : a1.sm.cfg = cfg)
     (hmi : a1.sm.cache.maxItems = cfg.cacheItems) (hcap : a1.sm.cache.capacity = cfg.cacheCap)
     (hloop : openLoop cfg img.linkedIds { sm := emptyStore cfg, fs := img } =
@@ -183,8 +188,8 @@ theorem openStore_caseC_C5b (cfg : Cfg) {img : Fs} {jc : List (Closed × List Re
       RecovC5b s' w' fs' jc [.state stC] ∧ s'.st = stC ∧ s'.log = lC ∧ s'.cfg = cfg ∧
       s'.cache.maxItems = cfg.cacheItems ∧ s'.cache.capacity = cfg.cacheCap ∧ s'.openId = oid ∧
       fs' = (((truncFsC5b img oid tr).unlink oid).create oid).write oid (encRecord (.state stC)) ∧
-      evs = truncEvsC5b oid tr ++ [.unlink "o" oid true, .create "o" oid true,
-        .write "o" oid (encRecord (.state stC)) true] := by
+      evs = pre ++ (truncEvsC5b oid tr ++ [.unlink "o" oid true, .create "o" oid true,
+        .write "o" oid (encRecord (.state stC)) true]) := by
   have hopen := openStore_fresh (n := oid) hloop (Or.inl rfl) rfl (dropHeadless_has a1 oid tr)
   have hsm := dropHeadless_sm_C5b a1 oid tr
   have hstF : (a1.dropHeadless oid tr).sm.st = stC := by rw [hsm]; exact hst
@@ -262,31 +267,38 @@ theorem openStore_caseA_C5b (cfg : Cfg) {img : Fs} {jc : List (Closed × List Re
     (h : ImgHypC5b img jc oid jo stC lC g0) {a1 : OpenAcc} {sm2 : Store} {j : Nat}
     {stJ : RState} {lJ : Log} (hj : 1 ≤ j)
     (hdata : g0.data = encAll (jo.take j))
-    (hfs : a1.fs = img) (hevs : a1.evs = [])
+    {pre : List Ev}
+    (hfs : a1.fs = img) (hevs : a1.evs = pre)
     (hcl : a1.sm.closed = jc.map (·.1)) (hrem : a1.sm.removed = []) (hcfg : a1.sm.cfg = cfg)
     (hmi : a1.sm.cache.maxItems = cfg.cacheItems) (hcap : a1.sm.cache.capacity = cfg.cacheCap)
     (hst2 : sm2.st = stJ) (hlog2 : sm2.log = lJ) (hsame : SameRest a1.pre.sm sm2)
     (hstJ : stRun (jo.take j) stC = some stJ) (hlJ : idxRun (chunkOps oid (jo.take j)) lC = some lJ)
     (hloop : openLoop cfg img.linkedIds { sm := emptyStore cfg, fs := img } =
       (.ok (a1.loadedLastC5b oid (jo.take j) none sm2), a1.loadedLastC5b oid (jo.take j) none sm2)) :
-    ∃ s' w', openStore cfg img = (.ok (s', w'), img, []) ∧
+    ∃ s' w', openStore cfg img = (.ok (s', w'), img, pre ++ [.sync "o" oid true]) ∧
       RecovC5b s' w' img jc (jo.take j) ∧ s'.st = stJ ∧ s'.log = lJ ∧ s'.cfg = cfg ∧
       s'.cache.maxItems = cfg.cacheItems ∧ s'.cache.capacity = cfg.cacheCap ∧ s'.openId = oid := by
   have hclF : (a1.loadedLastC5b oid (jo.take j) none sm2).sm.closed
       = jc.map (·.1) ++ [⟨offsetsFrom oid (sizes (jo.take j)), sm2.st⟩] := by
     simp only [OpenAcc.loadedLastC5b, hsame.closed]
     rw [← hcl]; rfl
-  have hopen := openStore_of_loads cfg hloop hclF rfl hfs hevs
+  have hfsF : (a1.loadedLastC5b oid (jo.take j) none sm2).fs = img := by
+    show a1.fs.sync oid = img
+    rw [hfs]; exact h.allDurable.sync_eq oid
+  have hevsF : (a1.loadedLastC5b oid (jo.take j) none sm2).evs = pre ++ [.sync "o" oid true] := by
+    show a1.evs ++ [Ev.sync "o" oid true] = _
+    rw [hevs]
+  have hopen := openStore_of_loads cfg hloop hclF rfl hfsF hevsF
   have hid : (⟨offsetsFrom oid (sizes (jo.take j)), sm2.st⟩ : Closed).id = oid := by
     simp only [Closed.id, offsetsFrom_headD_C5b]
   rw [hid] at hopen
   obtain ⟨s', w', hopen', ⟨f1, f2, f3, f4, f5, f6, f7, f8⟩, hw'⟩ :
-      ∃ s' w', openStore cfg img = (.ok (s', w'), img, []) ∧
+      ∃ s' w', openStore cfg img = (.ok (s', w'), img, pre ++ [.sync "o" oid true]) ∧
         (s'.st = sm2.st ∧ s'.log = sm2.log ∧ s'.closed = jc.map (·.1) ∧
           s'.openOffsets = offsetsFrom oid (sizes (jo.take j)) ∧ s'.pending = [] ∧
           s'.removed = sm2.removed ∧ s'.cfg = sm2.cfg ∧ s'.cache = sm2.cache) ∧
         w' = { files := [⟨oid, prevLastOf (jc.map (·.1))⟩] } :=
-    ⟨_, _, hopen, ⟨rfl, rfl, rfl, rfl, rfl, rfl, rfl, rfl⟩, rfl⟩
+    by refine ⟨_, _, hopen, ?_, rfl⟩; exact ⟨rfl, rfl, rfl, rfl, rfl, rfl, rfl, rfl⟩
   have hoid : s'.openId = oid := by simp only [Store.openId, f4, offsetsFrom_headD_C5b]
   refine ⟨s', w', hopen', ?_, by rw [f1]; exact hst2, by rw [f2]; exact hlog2,
     by rw [f7, hsame.cfg]; exact hcfg, by rw [f8, hsame.maxItems]; exact hmi,
@@ -324,7 +336,8 @@ theorem openStore_caseB_C5b (cfg : Cfg) {img : Fs} {jc : List (Closed × List Re
     (h : ImgHypC5b img jc oid jo stC lC g0) {a1 : OpenAcc} {sm2 : Store} {j : Nat} {rest : Bytes}
     {stJ : RState} {lJ : Log} (hj : 1 ≤ j) (hjl : j ≤ jo.length)
     (hdata : g0.data = encAll (jo.take j) ++ rest)
-    (hfs : a1.fs = img) (hevs : a1.evs = [])
+    {pre : List Ev}
+    (hfs : a1.fs = img) (hevs : a1.evs = pre)
     (hcl : a1.sm.closed = jc.map (·.1)) (hrem : a1.sm.removed = []) (hcfg : a1.sm.cfg = cfg)
     (hmi : a1.sm.cache.maxItems = cfg.cacheItems) (hcap : a1.sm.cache.capacity = cfg.cacheCap)
     (hst2 : sm2.st = stJ) (hlog2 : sm2.log = lJ) (hsame : SameRest a1.pre.sm sm2)
@@ -340,7 +353,7 @@ theorem openStore_caseB_C5b (cfg : Cfg) {img : Fs} {jc : List (Closed × List Re
       s'.openId = oid + (encAll (jo.take j)).length ∧
       fs' = ((img.truncate oid (encAll (jo.take j)).length).create (oid + (encAll (jo.take j)).length)).write
         (oid + (encAll (jo.take j)).length) (encRecord (.state stJ)) ∧
-      evs = [.trunc "o" oid (encAll (jo.take j)).length, .sync "o" oid true,
+      evs = pre ++ [.trunc "o" oid (encAll (jo.take j)).length, .sync "o" oid true, .sync "o" oid true,
         .create "o" (oid + (encAll (jo.take j)).length) true,
         .write "o" (oid + (encAll (jo.take j)).length) (encRecord (.state stJ)) true] := by
   have hne : jo.take j ≠ [] := by
@@ -355,7 +368,8 @@ theorem openStore_caseB_C5b (cfg : Cfg) {img : Fs} {jc : List (Closed × List Re
   have hpe : (a1.loadedLastC5b oid rsj (some L) sm2).prevEnd.getD 0 = oid + L := by
     simp only [OpenAcc.loadedLastC5b, lastOff_sized, Option.getD_some, hL]
   have hfsF : (a1.loadedLastC5b oid rsj (some L) sm2).fs = img.truncate oid L := by
-    simp only [OpenAcc.loadedLastC5b, OpenAcc.afterTrunc, OpenAcc.pre, hfs]
+    show (a1.fs.truncate oid L).sync oid = _
+    rw [hfs]; exact (h.allDurable.truncate oid L).sync_eq oid
   have hhas : (a1.loadedLastC5b oid rsj (some L) sm2).fs.has (oid + L) = false := by
     rw [hfsF, Fs.has_truncate]
     cases hx : img.has (oid + L) with
@@ -386,11 +400,13 @@ theorem openStore_caseB_C5b (cfg : Cfg) {img : Fs} {jc : List (Closed × List Re
           .write "o" (oid + L) (encRecord (.state stJ)) true] :=
     ⟨_, _, _, _, hopen, ⟨rfl, rfl, hclF, rfl, rfl, rfl, rfl, rfl⟩, ⟨_, rfl⟩, rfl, rfl⟩
   have hoid : s'.openId = oid + L := by simp only [Store.openId, f4]; rfl
-  have hevsF : (a1.loadedLastC5b oid rsj (some L) sm2).evs = [.trunc "o" oid L, .sync "o" oid true] := by
-    simp only [OpenAcc.loadedLastC5b, OpenAcc.afterTrunc, OpenAcc.pre, hevs, List.nil_append]
+  have hevsF : (a1.loadedLastC5b oid rsj (some L) sm2).evs
+      = pre ++ [.trunc "o" oid L, .sync "o" oid true, .sync "o" oid true] := by
+    show (a1.evs ++ [Ev.trunc "o" oid L, Ev.sync "o" oid true]) ++ [Ev.sync "o" oid true] = _
+    rw [hevs]; simp
   refine ⟨s', w', fs', evs, hopen', ?_, by rw [f1]; exact hst2, by rw [f2]; exact hlog2,
     by rw [f7, hsame.cfg]; exact hcfg, by rw [f8, hsame.maxItems]; exact hmi,
-    by rw [f8, hsame.capacity]; exact hcap, hoid, hfs', by rw [hevs', hevsF]; rfl⟩
+    by rw [f8, hsame.capacity]; exact hcap, hoid, hfs', by rw [hevs', hevsF]; simp⟩
   obtain ⟨hnew, hother⟩ := find_create_write (img.truncate oid L) (oid + L) (encRecord (.state stJ))
   rw [← hfs'] at hnew hother
   have hmem0 : g0 ∈ img := List.mem_of_find?_eq_some h.g0
@@ -507,6 +523,7 @@ theorem openStore_image_C5b (cfg : Cfg) (ht : cfg.truncate = true) {img : Fs}
   have hP2 := idxRun_flat_chunk_C5b h.rep hlJ
   obtain ⟨a1, sm2, k1, k2, k3, k4, k5, k6, k7, k8, k9, k10, k11, k12, k13, k14, hloop⟩ :=
     openLoop_image_ok_C5b cfg ht h.ids h.files' h.rep h.chained h.g0 hparse hcase hstJ hlJ
+      h.allDurable
   by_cases hnil : jo.take j = []
   · -- case C
     rw [if_pos hnil] at hloop
@@ -532,7 +549,7 @@ theorem openStore_image_C5b (cfg : Cfg) (ht : cfg.truncate = true) {img : Fs}
       rw [hrest, List.append_nil] at hdata
       obtain ⟨s', w', q1, q2, q3, q4, q5, q6, q7, q8⟩ :=
         openStore_caseA_C5b cfg h hj1 hdata k1 k2 k5 k6 k7 k8 k9 k12 k13 k14 hstJ hlJ hloop
-      refine ⟨s', w', img, [], jc, jo.take j, q1, q2, q3, q4, q5, q6, q7, hP1, hP2, Or.inl ⟨?_, ?_⟩,
+      refine ⟨s', w', img, _, jc, jo.take j, q1, q2, q3, q4, q5, q6, q7, hP1, hP2, Or.inl ⟨?_, ?_⟩,
         by rw [q2.jstart_eq, q8]⟩
       · simp only [allOps, q8]
       · intro f hf
